@@ -147,6 +147,70 @@ End Mfd.
 Print Assumptions gen_mfd_main_spec.
 Print Assumptions gen_mfd_main_inconclusive.
 
+(* the link to Search.fd_solve (mfd_solve): with the auxiliary phases read as fd_solve itself computes them -- the lower bound and the number of
+   invocations of lb_phase (the nested MinGenSet search), one more invocation for the guessed-weights model, which is kept iff it was reported
+   optimal -- the regenerated main loop returns exactly the result, the number of invocations and the chosen k of fd_solve *)
+Lemma kloop_ext pre pre' ov : (forall k, pre k = pre' k) -> forall ks sts n, kloop pre ov ks sts n = kloop pre' ov ks sts n.
+Proof.
+  intros E. induction ks as [|k ks IH]; intros sts n; cbn [kloop]; [reflexivity|]. rewrite (E k).
+  destruct (pre' k); [reflexivity|]. destruct sts as [|r sts]; [reflexivity|]. destruct (ov (S n)); [reflexivity|].
+  destruct (status_of r); try reflexivity. apply IH.
+Qed.
+
+Lemma kloop_ext_ov pre ov ov' : (forall n, ov n = ov' n) -> forall ks sts n, kloop pre ov ks sts n = kloop pre ov' ks sts n.
+Proof.
+  intros E. induction ks as [|k ks IH]; intros sts n; cbn [kloop]; [reflexivity|]. rewrite !E.
+  destruct (pre k); [reflexivity|]. destruct sts as [|r sts]; [reflexivity|]. destruct (ov' (S n)); [reflexivity|].
+  destruct (status_of r); try reflexivity. apply IH.
+Qed.
+
+Definition same_as (o : outcome) (r : gen_result) : Prop :=
+  g_n r = Z.of_nat (used o) /\
+  match so_res o with
+  | Solved k => g_res r = Ret true /\ g_solved r = true /\ g_chosen r = Z.of_nat k
+  | NotSolved => g_res r = Ret false /\ g_solved r = false /\ g_chosen r = 0%Z
+  | Starved => g_res r = Exc IndexError /\ g_solved r = false /\ g_chosen r = 0%Z
+  | _ => False
+  end.
+
+Theorem gen_mfd_main_is_fd_solve : forall (P : fd_params) (gr : list bool) (sts : list raw) (last0 : Z),
+  nedges P < length gr -> (forall n, over P n = false) -> (forall k, greedy P k = of_list gr k) -> upper_excl P = false ->
+  match lb_phase false false (use_mgs P) (lb0 P) (nweights P) sts with
+  | LB lb n1 =>
+      n1 <= length sts ->
+      if guessed P then
+        match skipn n1 sts with
+        | [] => True
+        | r :: _ =>
+            same_as (fd_solve false false P sts)
+                    (fn (codes sts) 0 last0 gr true (Z.of_nat (S n1)) 0 (Z.of_nat lb) (Z.of_nat (nedges P)) (is_optimal (status_of r)) (Z.of_nat (gw_paths P)))
+        end
+      else
+        same_as (fd_solve false false P sts)
+                (fn (codes sts) 0 last0 gr false 0 (Z.of_nat n1) (Z.of_nat lb) (Z.of_nat (nedges P)) false 0)
+  | _ => True
+  end.
+Proof.
+  intros P gr sts last0 Hgl Hover Hgr Hex. unfold fd_solve.
+  destruct (lb_phase false false (use_mgs P) (lb0 P) (nweights P) sts) as [lb n1| |]; [|exact I|exact I].
+  intros Hn1. rewrite Hex. unfold upper.
+  destruct (guessed P).
+  - destruct (skipn n1 sts) as [|r sts2] eqn:Esk; [exact I|].
+    destruct (skipn_cons_inv _ _ _ _ Esk) as [Hr Esk2].
+    assert (HS : S n1 <= length sts) by (apply nth_error_Some; congruence).
+    pose proof (gen_mfd_main_spec gr sts (is_optimal (status_of r)) (gw_paths P) true (S n1) 0 lb (nedges P) last0) as M.
+    cbv zeta beta iota in M. specialize (M ltac:(lia) Hgl). replace (S n1 + 0) with (S n1) in M by lia. rewrite Esk2 in M.
+    rewrite (kloop_ext _ (fun k => given_match (if is_optimal (status_of r) then Some (gw_paths P) else None) k || of_list gr k) (over P)) by (intros k; rewrite Hgr; reflexivity).
+    rewrite (kloop_ext_ov _ (over P) never Hover).
+    destruct (kloop _ never (krange lb (S (nedges P))) sts2 (S n1)) as [res m]. exact M.
+  - pose proof (gen_mfd_main_spec gr sts false 0 false 0 n1 lb (nedges P) last0) as M.
+    cbv zeta beta iota in M. cbn [Nat.add] in M. specialize (M Hn1 Hgl).
+    rewrite (kloop_ext _ (fun k => given_match None k || of_list gr k) (over P)) by (intros k; rewrite Hgr; reflexivity).
+    rewrite (kloop_ext_ov _ (over P) never Hover).
+    destruct (kloop _ never (krange lb (S (nedges P))) (skipn n1 sts) n1) as [res m]. exact M.
+Qed.
+Print Assumptions gen_mfd_main_is_fd_solve.
+
 Definition R (s : status) : raw := mkraw s false.
 (* two auxiliary invocations, then k = 2 infeasible, k = 3 optimal; kFlowDecomp(3) solved by its constructor needs no solver; a kept model with 2 paths *)
 Definition G7 (b : bool) := [false; false; false; b; false; false; false].
